@@ -7,7 +7,7 @@ them.
 -/
 import EPV.Support
 
-open Lean Elab Tactic
+open Lean Elab Tactic Meta
 
 /-- close a goal whose context says a non-`ok` leaf returned `ok` -/
 macro "epv_absurd" : tactic =>
@@ -25,3 +25,17 @@ macro "epv_on_leaves " t:tacticSeq : tactic =>
 /-- leaf-level algebra: unfold the leaf definitions and normalise -/
 macro "epv_leaf_ring" : tactic =>
   `(tactic| (simp only [epv_leaf] <;> ring))
+
+/-- `epv_cases h`: case analysis along a traced decision tree, linear in the number of leaves
+(Mathlib's `split_ifs` is exponential on long else-chains).  Finds the outermost `if c then _ else _`
+of the goal, does `by_cases` on `c` and rewrites goal *and* hypothesis `h` with `if_pos`/`if_neg`;
+repeats on every resulting goal. -/
+elab "epv_cases1 " h:ident : tactic => withMainContext do
+  let g ← instantiateMVars (← getMainTarget)
+  let some e := g.find? (fun e => e.isAppOfArity ``ite 5 && !(e.getArg! 1).hasLooseBVars)
+    | throwError "epv_cases1: no if-then-else in the goal"
+  let stx ← Term.exprToSyntax (e.getArg! 1)
+  evalTactic (← `(tactic| by_cases hsplit : $stx <;>
+    first | simp only [if_pos hsplit] at $h:ident ⊢ | simp only [if_neg hsplit] at $h:ident ⊢))
+
+macro "epv_cases " h:ident : tactic => `(tactic| repeat' epv_cases1 $h)
